@@ -1093,6 +1093,8 @@ func (vm *VM) run() (Addr, bool) {
 				panic(errNilPointer)
 			}
 			method := vm.stringk(b, true)
+			// The method value is bound to a copy of the receiver.
+			receiver = addressableCopy(receiver)
 			vm.setGeneral(c, reflect.ValueOf(&callable{value: receiver.MethodByName(method)}))
 
 		// Move
